@@ -93,7 +93,9 @@ def plans(draw, sers=SERS, algs=gk.JWS_ALGS, allow_b64=True, max_members=3, utf8
             crit = list(protected.get("crit", []))
             protected["crit"] = crit + ["b64"]
         members.append({"alg": alg, "key": gk.key_to_record(key), "protected": protected, "header": header, "kid": kid})
-    return {"ser": ser, "b64": b64, "payload_hex": payload.hex(), "members": members}
+    # role-specific key metadata: the signer's key object says key_ops ["sign"], the verifier's (same material) ["verify"]
+    role = draw(st.sampled_from([None, None, None, "ops", "use", "ops+use"]))
+    return {"ser": ser, "b64": b64, "payload_hex": payload.hex(), "members": members, "role": role}
 
 
 def plan_label(plan) -> tuple:
@@ -135,13 +137,25 @@ def materialize(plan, keymode):
     return out
 
 
-def jose_keyarg(plan, keymode: str, private: bool, form: str = "dict"):
+def role_params(role, op: str) -> dict:
+    out = {}
+    if role and "ops" in role:
+        out["key_ops"] = [op]
+    if role and "use" in role:
+        out["use"] = "sig"
+    return out
+
+
+def jose_keyarg(plan, keymode: str, private: bool, form: str = "dict", op: str | None = None):
     from joserfc.jwk import KeySet
     ms = plan["members"]
     kids = _kids(plan)
     objs = []
+    rp = role_params(plan.get("role"), op or ("sign" if private else "verify"))
     for m, kid in zip(ms, kids):
         params = {"kid": m["kid"]} if m["kid"] is not None else None
+        if rp:
+            params = {**(params or {}), **rp}
         objs.append(jkey(gk.key_from_record(m["key"]), form, private, params))
     if len(ms) > 1 and keymode in ("key", "callable_key", "keyset_nokid", "callable_keyset_nokid"):
         keymode = "keyset_kid"
@@ -167,7 +181,7 @@ def jose_sign(plan, keymode: str = "key", form: str = "dict"):
     from joserfc import rfc7797
     payload = bytes.fromhex(plan["payload_hex"])
     hdrs = _with_kid(plan, keymode)
-    keyarg = jose_keyarg(plan, keymode, True, form)
+    keyarg = jose_keyarg(plan, keymode, True, form, "sign")
     if plan["ser"] == "compact":
         p = hdrs[0][0]
         if plan["b64"] is None:
@@ -191,7 +205,7 @@ def jose_sign(plan, keymode: str = "key", form: str = "dict"):
 def jose_verify(token, plan, keymode: str = "key", form: str = "dict", private: bool = False, give_payload: bool = True):
     from joserfc import jws
     from joserfc import rfc7797
-    keyarg = jose_keyarg(plan, keymode, private, form)
+    keyarg = jose_keyarg(plan, keymode, private, form, "verify")
     payload = bytes.fromhex(plan["payload_hex"])
     if plan["ser"] == "compact":
         if plan["b64"] is None:
